@@ -73,6 +73,10 @@ def build_tree(g, depth=2, n_top=(1, 5), collide=False, repeat_p=0.35, ref_p=0.2
                     ov["repeat"] = {"count": str(count), "stride": str(stride)}
                 if kind == "register" and g.chance(0.3):
                     ov["access"] = g.pick(["RW", "RO", "WO"])
+                if not collide and level > 0 and g.chance(0.35):
+                    # a ref may leave the address to its target: it then sits at the target's own (relative) address, in the
+                    # frame of the block the REF is declared in - whatever blocks the target is declared in
+                    del ov["address"]
                 o = {"kind": "ref", "name": name, "target": tgt, "override": ov}
                 if g.chance(cfg_p):
                     o["cfg"] = g.cfg_atom()
@@ -1312,8 +1316,8 @@ def common_fragment_adef(g, rich=True, big_reset=False):
     cfg = g.config(p=0.5, addr_types=("u16", "i16", "u32", "i32", "i64"), byte_order_p=0.85)
     if g.chance(0.2):
         cfg["defmt_feature"] = "defmt-03"
-    if g.chance(0.2):
-        cfg["name_word_boundaries"] = g.pick([["Underscore"], ["Underscore", "Hyphen", "LowerUpper"], ["Underscore", "LowerUpper", "UpperLower", "Acronym"]])
+    if g.chance(0.35):
+        cfg["name_word_boundaries"] = g.pick([["Underscore"], ["Underscore", "Hyphen"], ["Underscore", "Hyphen", "LowerUpper"], ["Underscore", "LowerUpper", "UpperLower", "Acronym"]])
     adef = {"config": cfg, "objects": objs}
     # how the same definition is written down (renderer-level choices, invisible to the model):
     # radix of non-negative integers where the syntax has a choice (JSON has none)
@@ -1445,6 +1449,10 @@ def cases_for(prop, tier, seed):
         f18 = case({"config": {"register_address_type": "u8", "default_byte_order": "LE"}, "objects": [
             {"kind": "register", "name": "Wide", "address": "1", "size_bits": 160,
              "fields": [{"name": "v", "base": "uint", "start": 0, "end": 160}]}]}, "dsl", "nocfg")
+        f23 = case({"config": {"register_address_type": "u8", "default_byte_order": "LE"}, "objects": [
+            {"kind": "register", "name": "R", "address": "1", "size_bits": 8, "fields": [
+                {"name": "v", "base": "int", "start": 0, "end": 8, "conversion": {"enum": {"name": "E", "variants": [
+                    {"name": "A", "value": "200"}, {"name": "B", "value": "default"}]}, "try": False}}]}]}, "dsl", "nocfg")
         f19 = case({"config": {"register_address_type": "u8", "default_byte_order": "LE"}, "objects": [
             {"kind": "register", "name": "Type", "address": "1", "size_bits": 8,
              "fields": [{"name": "type", "base": "uint", "start": 0, "end": 4}, {"name": "match", "base": "bool", "start": 5}]}]}, "json", "nocfg")
@@ -1465,7 +1473,20 @@ def cases_for(prop, tier, seed):
                    ({}, [{"kind": "block", "name": "Blk", "objects": [{"kind": "register", "name": "R", "address": "1", "size_bits": 8, "fields": [
                        {"name": "f", "base": "uint", "start": 0, "end": 2, "conversion": {"enum": {"name": "Blk", "variants": [
                            {"name": "A", "value": None}, {"name": "B", "value": "default"}]}, "try": False}}]}]}]))]
-        return CORPUS.get(prop, []) + [f14, f18, f19] + f21 + edge + [case(nocfg_adef(g), pick_syntax(g, (3, 3, 2, 2)), "nocfg") for _ in range(90 * k)]
+        # the largest address written as a literal is exactly a power of two (or one off it): the internal address type must
+        # still hold it (`self.base_address + 256` with a u8 base does not compile)
+        lits = []
+        for kbits, ty in ((8, "u16"), (8, "i16"), (16, "u32"), (16, "i32"), (32, "i64")):
+            for delta in (0, -1, 1):
+                top = (1 << kbits) + delta
+                kind = g.pick(["register", "command", "buffer"])
+                o = {"kind": kind, "name": "Top", "address": str(top)}
+                if kind == "register":
+                    o.update({"size_bits": 8, "fields": []})
+                cfgx = {"register_address_type": ty, "command_address_type": ty, "buffer_address_type": ty, "default_byte_order": "LE"}
+                lits.append(case({"config": cfgx, "objects": [o, {"kind": "register", "name": "Low", "address": "1", "size_bits": 8, "fields": []}]},
+                                 pick_syntax(g, (3, 3, 2, 2)), "nocfg"))
+        return CORPUS.get(prop, []) + [f14, f18, f19, f23] + f21 + edge + lits + [case(nocfg_adef(g), pick_syntax(g, (3, 3, 2, 2)), "nocfg") for _ in range(90 * k)]
     return _cases_for_base5(prop, tier, seed)
 
 
@@ -1482,7 +1503,9 @@ def prof_c20(g, n):
             out.append(c)
     for i in range(n):
         adef = common_fragment_adef(g)
-        out.append(case(adef, SYNTAXES[i % 4], "cli"))
+        # the device name goes through the shells too: digits, a single letter, and names the library rejects (not PascalCase)
+        dn = g.pick(["Dev", "Dev", "Tmp117", "Lis3dhDriver", "X", "MyDevice2", "my_device", "dev"])
+        out.append(case(adef, SYNTAXES[i % 4], "cli", device_name=dn))
     # rejected inputs, among them several unknown ref targets at once (formerly order-dependent)
     for i in range(max(4, n // 4)):
         g.reset_names()
